@@ -100,6 +100,9 @@ pub struct Batch {
     pub down: bool,
     #[serde(default)]
     pub from: u8,
+    /// the batch is spread over this many sender frames (1..4) before the receiver runs a frame
+    #[serde(default)]
+    pub frames: u8,
     /// (channel 0..3, payload size)
     pub msgs: Vec<(u8, u16)>,
 }
@@ -145,9 +148,22 @@ pub fn run(c: &Case) -> Outcome {
     let mut max_in_frame = 0usize;
     for b in &c.batches {
         let from = b.from as usize % n;
+        if b.down {
+            for c in &mut clients {
+                c.world_mut().resource_mut::<Got>().0.clear();
+            }
+        } else {
+            server.world_mut().resource_mut::<GotUp>().0.clear();
+        }
         let mut total = 0usize;
         let mut sent: Vec<Vec<(u32, Vec<u8>)>> = vec![Vec::new(); 3];
-        for &(ch, size) in &b.msgs {
+        let nframes = (b.frames as usize).clamp(1, 4);
+        let per_frame = b.msgs.len().div_ceil(nframes).max(1);
+        for (mi, &(ch, size)) in b.msgs.iter().enumerate() {
+            if mi > 0 && mi % per_frame == 0 {
+                // next sender frame: what was queued so far leaves now, the receiver is still stalled
+                if b.down { server.update() } else { clients[from].update() }
+            }
             let size = (size as usize).min(1200);
             if (total + size) * if b.down { n } else { 1 } > 32 * 1024 {
                 break;
@@ -189,12 +205,8 @@ pub fn run(c: &Case) -> Outcome {
         let down = b.down;
         // the whole batch leaves in one sender frame, i.e. piles up between two frames of each receiver
         if down {
-            for c in &mut clients {
-                c.world_mut().resource_mut::<Got>().0.clear();
-            }
             server.update();
         } else {
-            server.world_mut().resource_mut::<GotUp>().0.clear();
             clients[from].update();
         }
         let nrx = if down { n } else { 1 };
@@ -265,7 +277,8 @@ pub fn run(c: &Case) -> Outcome {
 
 fn case_strategy() -> impl Strategy<Value = Case> {
     let size = prop_oneof![3 => 0u16..40, 2 => 0u16..=1200, 1 => prop_oneof![Just(0u16), Just(1), Just(255), Just(256), Just(1199), Just(1200)]];
-    let batch = (any::<bool>(), 0u8..3, proptest::collection::vec((0u8..3, size), 1..48)).prop_map(|(down, from, msgs)| Batch { down, from, msgs });
+    let batch = (any::<bool>(), 0u8..3, proptest::collection::vec((0u8..3, size), 1..48), prop_oneof![2 => Just(1u8), 1 => 2u8..=4])
+        .prop_map(|(down, from, msgs, frames)| Batch { down, from, msgs, frames });
     (1u8..=3, proptest::collection::vec(batch, 1..4)).prop_map(|(clients, batches)| Case { clients, batches })
 }
 
@@ -288,7 +301,7 @@ impl Prop for C17 {
         }
     }
     fn rule(&self) -> String {
-        "case = 1..3 connected clients and 1..3 batches (server -> all clients by broadcast, or one client -> server), each 1..47 messages of 0..1200 payload bytes on 3 channels (2 ordered, 1 unordered) in one direction, queued in ONE sender frame so they pile \
+        "case = 1..3 connected clients and 1..3 batches (server -> all clients by broadcast, or one client -> server), each 1..47 messages of 0..1200 payload bytes on 3 channels (2 ordered, 1 unordered) in one direction, queued in ONE sender frame or spread over 2..4 sender frames while the receiver is stalled, so they pile \
          up between two receiver frames; real loopback TCP sockets of the example backend, no conditioner; carried by independent events (seq, payload). oracle: per channel \
          the received (seq, payload) sequence equals the sent one (order, multiplicity, bytes), judged on the concatenated arrival sequence; only a message still missing 2 s \
          after sending counts as lost. non-trivial = >= 8 messages were handed to the receiver's game logic within one frame (measured on arrival)"
